@@ -235,6 +235,6 @@ def replay(rec):
 
 LEVEL_TEXT = ("contract-based, partial (sequential core): exact event mapping of _process_recv_primitive, AST scan of all event producers, "
               "exhaustive peer/ARTIM closure of the real transition table, ARTIM expiry reachability through the real Timer with an "
-              "adversarial clock. Interleavings of local-user events and liveness are not decided.")
+              "adversarial clock. Interleavings of local-user events and liveness are not decided. One arbitrary iteration of DULServiceProvider.run_reactor: ARTIM first (Evt18), one source and at most one action per iteration, failure ends the provider with an A-ABORT.")
 LEVEL_NOTE = "level 'other': see not_decided; one open known finding (ARTIM stopped after expiry by AE-6)."
 TECHNIQUE = "deductive: effect-trace contract + real Timer under an adversarial clock (AST->VC, z3 LRA) + exhaustive table/AST scans"
